@@ -20,6 +20,7 @@
 (*   u64   I2OSP(value, 8)            len64  I2OSP(length of value, 8)      *)
 (*   len16 I2OSP(length of value, 2)                                        *)
 (*   pk    compressed G2 point (96)   pt     compressed G1 point (48)       *)
+(*   pku   uncompressed G2 point (192, public-key coordinates x || y)       *)
 (*   pts   concatenation of compressed G1 points                            *)
 (*   sc    scalar, 32 octets big endian      scs  concatenation of scalars  *)
 (*   pairs for each (index, scalar): I2OSP(index, 8) || scalar              *)
@@ -49,7 +50,9 @@ ProofW      == << F("pt", "Abar"), F("pt", "Bbar"), F("pt", "D"),
                   F("sc", "e_cap"), F("sc", "r1_cap"), F("sc", "r3_cap"),
                   F("scs", "m_cap"), F("sc", "challenge") >>
 CommitW     == << F("pt", "C"), F("sc", "s_cap"), F("scs", "m_cap"), F("sc", "challenge") >>
+ZkpokW      == << F("sc", "s_cap"), F("scs", "m_cap"), F("sc", "challenge") >>   \* commitment proof alone
 PublicKeyW  == << F("pk", "W") >>
+PkCoordsW   == << F("pku", "W") >>              \* public key as (x, y) coordinates: uncompressed G2 point (192)
 SecretKeyW  == << F("sc", "sk") >>
 BlindFactorW == << F("sc", "blind") >>
 
@@ -71,6 +74,7 @@ Hashes ==
 
 Wires ==
   [ signature |-> SigW, proof |-> ProofW, commitment |-> CommitW,
+    zkpok |-> ZkpokW, pk_coords |-> PkCoordsW,
     public_key |-> PublicKeyW, secret_key |-> SecretKeyW, blind_factor |-> BlindFactorW ]
 
 \* ---- interface identifiers ----------------------------------------------
